@@ -723,7 +723,7 @@ func (x *executor) run(u *unit) (res *unitResult) {
 			x.res.Err = "replay: input is truncated in the replay file: " + err.Error()
 		} else {
 			x.mark.set(1, rawTypeName, "raw splitters", "replay", in)
-			x.rawChecks(in, "replay", 2*time.Second, true)
+			x.rawChecks(in, "replay", 20*time.Second, true)
 		}
 	case "rt":
 		r := &x.roots[u.Root]
